@@ -277,6 +277,7 @@ var vdMissSignature = map[string]string{
 	"string-length":      "validate/string-length",
 	"binary-length":      "validate/binary-length",
 	"enum-undefined":     "validate/undefined-enum",
+	"union-enum-int64":   "validate/union-enum-int64",
 	"identity-undefined": "validate/undefined-identity",
 	"union-no-member":    "validate/union-no-member",
 	"key-mismatch":       "validate/key-mismatch",
@@ -585,6 +586,13 @@ func vdLeafSites(p *reg.Pkg, sp, fv reflect.Value, ft reflect.Type, t *yang.Yang
 						cls = "identity-undefined"
 					}
 				}
+				for _, m := range flattenUnion(t) {
+					if m.Kind == yang.Yint64 {
+						// a wrapper-union member is matched against the union's types by Go kind: the int64
+						// member takes the enumerated value (known finding validate/union-enum-int64)
+						cls = "union-enum-int64"
+					}
+				}
 				*sites = append(*sites, vdSite{class: cls, fault: true, desc: here + "=wrapper union enum 99",
 					apply: func(g *treeGen) (func(), bool) {
 						nw := reflect.New(dyn.Elem().Type())
@@ -742,7 +750,7 @@ type vdValidateReplay struct {
 	PField   float64 `json:"p_field"`
 }
 
-var vdClassList = []string{"int-range", "string-length", "binary-length", "enum-undefined", "identity-undefined", "union-no-member",
+var vdClassList = []string{"int-range", "string-length", "binary-length", "enum-undefined", "union-enum-int64", "identity-undefined", "union-no-member",
 	"key-mismatch", "leaflist-dup", "leaflist-dup-state", "list-max", "list-min", "leaflist-max", "choice-two-cases"}
 
 func vdValidateStream(rng *rand.Rand, n int, tier string, out string) (*Summary, error) {
